@@ -1275,6 +1275,9 @@ func (ndb *nodeDB) traverseOrphansWithRootkeyCache(cache *rootkeyCache, prevVers
 				curIter.Next(false)
 			}
 		}
+		if err := curIter.Error(); err != nil {
+			return err
+		}
 		pNode := prevIter.GetNode()
 
 		if orgNode != nil && bytes.Equal(pNode.hash, orgNode.hash) {
@@ -1289,7 +1292,7 @@ func (ndb *nodeDB) traverseOrphansWithRootkeyCache(cache *rootkeyCache, prevVers
 		}
 	}
 
-	return nil
+	return prevIter.Error()
 }
 
 // Close the nodeDB.
